@@ -13,7 +13,7 @@
 (* FileAnonymizer.anonymize_file are the same machine with a one-element   *)
 (* list (the last one reports by raising instead of logging).              *)
 (*                                                                         *)
-(* Checked: M => R  (PROPERTY RSpec: every M step is an R step or leaves   *)
+(* Checked: M => R (PROPERTY RSpecP: every M step is an R step or leaves   *)
 (* R's variables alone) and R's theorems as invariants of M, for every     *)
 (* scenario and every listing order.  M also predicts the outcome of each  *)
 (* generated scenario (FilesGen); a disagreement between that prediction   *)
